@@ -374,39 +374,45 @@ func checkC16(w *World, r *Report) {
 
 	r.Rule("R16.11", "a rejection carries the app-tag defined on the restriction whenever one is defined: in Pattern.Validate the choice between the custom app-tag and the default one is a top-level test of p.AppTag alone (independent of whether an error-message was given)", 1)
 	r.guard("R16.11", func() {
-		sp := w.Pkg("schema")
 		fd, _ := w.FuncDecl(w.Method("schema", "Pattern", "Validate"))
 		good := false
-		for _, st := range fd.Body.List {
-			is, ok := st.(*ast.IfStmt)
-			if !ok || is.Init != nil {
-				continue
-			}
-			be, ok := ast.Unparen(is.Cond).(*ast.BinaryExpr)
-			if !ok || (be.Op != token.EQL && be.Op != token.NEQ) {
-				continue
-			}
-			se, ok := ast.Unparen(be.X).(*ast.SelectorExpr)
-			if !ok || se.Sel.Name != "AppTag" {
-				continue
-			}
-			if v, ok := ConstStr(sp, be.Y); !ok || v != "" {
-				continue
-			}
-			// one branch assigns merr.AppTag = p.AppTag
-			assigns := false
-			ast.Inspect(is, func(n ast.Node) bool {
-				if as, ok := n.(*ast.AssignStmt); ok && len(as.Lhs) == 1 && len(as.Rhs) == 1 {
-					l, ok1 := as.Lhs[0].(*ast.SelectorExpr)
-					rr, ok2 := as.Rhs[0].(*ast.SelectorExpr)
-					if ok1 && ok2 && l.Sel.Name == "AppTag" && rr.Sel.Name == "AppTag" {
-						assigns = true
+		if f := w.SSAFunc(w.Method("schema", "Pattern", "Validate")); f != nil && len(ssaLoops(f)) == 0 {
+			sym := NewSym(w)
+			classify := func(a *pcAtom) string {
+				if c, ok := a.v.(*ssa.Call); ok && strings.HasSuffix(pcCalleeName(c.Common()), "MatchString") {
+					return "matches"
+				}
+				if bo, ok := a.v.(*ssa.BinOp); ok && a.subj != "" && a.set.equal(isetOf(0)) {
+					for _, side := range []ssa.Value{bo.X, bo.Y} {
+						if arg, ok := isLenCall(side); ok {
+							side = arg
+						}
+						if loadedFieldName(side) == "AppTag" {
+							return "notag"
+						}
 					}
 				}
-				return true
-			})
-			if assigns {
-				good = true
+				return ""
+			}
+			// the store of the pattern's own tag into the error: exactly when the value does not match and a tag is defined
+			for _, b := range f.Blocks {
+				for _, in := range b.Instrs {
+					st, ok := in.(*ssa.Store)
+					if !ok {
+						continue
+					}
+					fa, ok := st.Addr.(*ssa.FieldAddr)
+					if !ok {
+						continue
+					}
+					stt := fa.X.Type().Underlying().(*types.Pointer).Elem().Underlying().(*types.Struct)
+					if stt.Field(fa.Field).Name() != "AppTag" || loadedFieldName(st.Val) != "AppTag" {
+						continue
+					}
+					if pcCompare(sym.PathCond(f.Blocks[0], b, nil), classify, func(env map[string]bool) bool { return !env["matches"] && !env["notag"] }) == "" {
+						good = true
+					}
+				}
 			}
 		}
 		r.Check(good, "R16.11", "Pattern.Validate picks the defined app-tag", fd.Pos(), "top-level: if p.AppTag == \"\" { default } else { p.AppTag }", "the custom error-app-tag of a pattern is used only under a further condition (e.g. only when an error-message is defined as well): a pattern with error-app-tag alone reports the default tag")
